@@ -7,9 +7,10 @@ theorem isImport_eq {t : Table} {s r : Nat} {f : File} (hf : t[s]? = some f) :
     isImport t s r = some (findImport f r).isSome := by
   simp [isImport, hf]
 
-/-- the value computed for one holder `d` of the request (o, a): the Normal result naming THE binding it provides -/
+/-- the value computed for one holder `d` of the request (o, a): the Normal result naming THE binding it provides
+(up to its `nameLoc`) -/
 def HolderVal (t : Table) (a : Name) (d : ImportData) (r : MResult) : Prop :=
-  ∃ b, Reaches (toSpec t) (d.src, a) b ∧ (∀ b', Reaches (toSpec t) (d.src, a) b' → b' = b) ∧ r = normalOf t b
+  ∃ b, Reaches (toSpec t) (d.src, a) b ∧ (∀ b', Reaches (toSpec t) (d.src, a) b' → b' = b) ∧ noLoc r = normalOf t b
 
 theorem matchLoop_spec {t : Table} {rs : List Resolved} (H : Hyps t rs) (k : Bool) :
     ∀ (fuel : Nat) (tr : Tracker) (cd : List Tracker) (result : MResult) (ambs : List MResult) (f : File)
@@ -53,12 +54,12 @@ theorem matchLoop_spec {t : Table} {rs : List Resolved} (H : Hyps t rs) (k : Boo
           simpa using H.wf.exportsRefImport other (List.mem_of_getElem? hother) x hx
         simp [this]
       simp only [mapOpt, himp]
-      refine ⟨_, rfl, Or.inr ⟨⟨o, .namespace⟩, [], ?_, by simp, ?_, ?_⟩⟩
+      refine ⟨_, rfl, Or.inr ⟨⟨o, .namespace⟩, _, [], ?_, ?_, by simp, ?_, rfl⟩⟩
       · simp [Pointed, htg, hstar]
+      · simp [normalOf, exportsRefOf, hother, noLoc]
       · intro b hb
         left
         simpa [Pointed, htg, hstar] using hb
-      · simp [normalOf, exportsRefOf, hother]
     · have hstar' : ni.isStar = false := by simpa using hstar
       simp only [hstar', Bool.false_eq_true, if_false]
       have hpointed : ∀ b, Pointed t ni b ↔ Reaches (toSpec t) (o, ni.alias) b := by
@@ -85,8 +86,8 @@ theorem matchLoop_spec {t : Table} {rs : List Resolved} (H : Hyps t rs) (k : Boo
           cases hnid : findImport fo d.ref with
           | none =>
             left
-            obtain ⟨h1, h2⟩ := holder_local H.wf H.loc hfo he her hel hnid
-            exact ⟨rfl, ⟨d.src, .name d.ref⟩, (h1 _).2 rfl, fun b' hb' => (h1 b').1 hb', h2.symm⟩
+            obtain ⟨h1, h2⟩ := holder_local (d := d) H.wf hfo he her hnid
+            exact ⟨rfl, ⟨d.src, .name d.ref⟩, (h1 _).2 rfl, fun b' hb' => (h1 b').1 hb', h2⟩
           | some nid =>
             right
             obtain ⟨hiff, hind⟩ := holder_import H.wf H.esm hfo he her hnid
@@ -113,9 +114,10 @@ theorem matchLoop_spec {t : Table} {rs : List Resolved} (H : Hyps t rs) (k : Boo
           · simp only [hnid, Option.isSome_some]
             obtain ⟨R, hR, hout⟩ := ih ⟨d.src, 0, d.ref⟩ (cd ++ [tr]) {} [] fo nid hfo hnid (htrk 0 (Or.inl rfl))
               hn1 hs1 hfuel1 hchain
-            have := hout.unique hb hu
-            rw [finish_all_eq _ [] (by simp)] at this
-            exact ⟨R, hR, b, (hiff b).2 hb, fun b' hb' => hu b' ((hiff b').1 hb'), this⟩
+            obtain ⟨R0, hR0, hRR⟩ := hout.unique hb hu
+            rw [finish_all_eq _ [] (by simp)] at hRR
+            subst hRR
+            exact ⟨R, hR, b, (hiff b).2 hb, fun b' hb' => hu b' ((hiff b').1 hb'), hR0⟩
         obtain ⟨rs1, hrs1, hback, hforth⟩ := mapOpt_rel _ (HolderVal t ni.alias) ex.ambs hone
         generalize hG : mapOpt _ ex.ambs = g
         have hg : g = some rs1 := by rw [← hG]; exact hrs1
@@ -124,8 +126,9 @@ theorem matchLoop_spec {t : Table} {rs : List Resolved} (H : Hyps t rs) (k : Boo
         -- the main one
         obtain ⟨fo, hfo, hcase⟩ := holderCase ⟨ex.src, ex.ref, ex.loc⟩ (hhold _ (by simp))
         rw [isImport_eq (s := ex.src) (r := ex.ref) hfo]
-        have hmain : ∃ R b0, Reaches (toSpec t) (ex.src, ni.alias) b0 ∧
-            (∀ b', Reaches (toSpec t) (ex.src, ni.alias) b' → b' = b0) ∧ R = finish (normalOf t b0) (ambs ++ rs1) ∧
+        have hmain : ∃ R b0 R0, Reaches (toSpec t) (ex.src, ni.alias) b0 ∧
+            (∀ b', Reaches (toSpec t) (ex.src, ni.alias) b' → b' = b0) ∧ noLoc R0 = normalOf t b0 ∧
+            R = finish R0 (ambs ++ rs1) ∧
             (match some (findImport fo ex.ref).isSome with
               | none => none
               | some true => matchLoop ⟨t, rs, k⟩ fuel ⟨ex.src, ex.loc, ex.ref⟩ (cd ++ [tr])
@@ -134,20 +137,21 @@ theorem matchLoop_spec {t : Table} {rs : List Resolved} (H : Hyps t rs) (k : Boo
               = some R := by
           rcases hcase with ⟨hnid, b0, hb0, hu0, hv⟩ | ⟨nid, hnid, hchain, htrk, b, hb, hu, hiff⟩
           · simp only [hnid, Option.isSome_none]
-            exact ⟨_, b0, hb0, hu0, by rw [hv], rfl⟩
+            exact ⟨_, b0, _, hb0, hu0, hv, rfl, rfl⟩
           · simp only [hnid, Option.isSome_some]
             obtain ⟨R, hR, hout⟩ := ih ⟨ex.src, ex.loc, ex.ref⟩ (cd ++ [tr])
               { kind := .normal, src := ex.src, loc := ex.loc, ref := ex.ref } (ambs ++ rs1) fo nid hfo hnid
               (htrk ex.loc (Or.inr rfl)) hn1 hs1 hfuel1 hchain
-            exact ⟨R, b, (hiff b).2 hb, fun b' hb' => hu b' ((hiff b').1 hb'), hout.unique hb hu, hR⟩
-        obtain ⟨R, b0, hb0, hu0, hReq, hRcomp⟩ := hmain
-        refine ⟨R, hRcomp, Or.inr ⟨b0, rs1, ?_, ?_, ?_, hReq⟩⟩
+            obtain ⟨R0, hR0, hRR⟩ := hout.unique hb hu
+            exact ⟨R, b, R0, (hiff b).2 hb, fun b' hb' => hu b' ((hiff b').1 hb'), hR0, hRR, hR⟩
+        obtain ⟨R, b0, R0, hb0, hu0, hR0, hReq, hRcomp⟩ := hmain
+        refine ⟨R, hRcomp, Or.inr ⟨b0, R0, rs1, ?_, hR0, ?_, ?_, hReq⟩⟩
         · rw [hpointed]
           obtain ⟨z, hz, htz⟩ := hb0
           exact ⟨z, (hhold ⟨ex.src, ex.ref, ex.loc⟩ (by simp)).2.trans hz, htz⟩
         · intro r hr
-          obtain ⟨d, hd, b, hb, _, rfl⟩ := hback r hr
-          refine ⟨b, ?_, rfl⟩
+          obtain ⟨d, hd, b, hb, _, hrb⟩ := hback r hr
+          refine ⟨b, ?_, hrb⟩
           rw [hpointed]
           obtain ⟨z, hz, htz⟩ := hb
           exact ⟨z, (hhold d (by simp [hd])).2.trans hz, htz⟩
@@ -155,8 +159,8 @@ theorem matchLoop_spec {t : Table} {rs : List Resolved} (H : Hyps t rs) (k : Boo
           obtain ⟨d, hd, hdb⟩ := hcover b ((hpointed b).1 hb)
           rcases List.mem_cons.1 hd with rfl | hd
           · exact Or.inl (hu0 b hdb)
-          · obtain ⟨r, hr, b', _, hu', rfl⟩ := hforth d hd
+          · obtain ⟨r, hr, b', _, hu', hrb⟩ := hforth d hd
             rw [hu' b hdb]
-            exact Or.inr hr
+            exact Or.inr ⟨r, hr, hrb⟩
 
 end EsbuildModel.ExportMatch
